@@ -6,6 +6,10 @@
 (*                -> must equal CanonDict(items)                               *)
 (*   ev = "grid": one stored bin [wn, w, wl, wlw] as exact rationals            *)
 (*                -> GridOk                                                    *)
+(*   ev = "tau":  the optical-depth datasets found in one group of a file      *)
+(*                written through one caller (direct / contributions / program *)
+(*                / optimizer) with one binner and requested output size       *)
+(*                -> exactly TauAt(caller, place, binner, size)                *)
 (* Rejected events are printed as <<"BAD", ..>>; every event gets a verdict.  *)
 EXTENDS Output, IOUtils, TLCExt
 VARIABLE l
@@ -13,6 +17,8 @@ TraceLog == ndJsonDeserialize(IOEnv.TRACE_FILE)
 
 \* JSON arrays come back as sequences, objects as records: same shapes as the specification's values
 Ok(e) == IF e.ev = "dict" THEN e.tree = CanonDict(e.items)
+         ELSE IF e.ev = "tau" THEN /\ e.place \in PlacesOf(e.caller)
+                                   /\ {e.tau[i] : i \in 1..Len(e.tau)} = TauAt(e.caller, e.place, e.binner, e.size)
          ELSE GridOk([wn |-> <<e.wn[1], e.wn[2]>>, w |-> <<e.w[1], e.w[2]>>,
                       wl |-> <<e.wl[1], e.wl[2]>>, wlw |-> <<e.wlw[1], e.wlw[2]>>])
 Init == l = 1
